@@ -6,8 +6,13 @@
             (the runner, in-process, std Fs + std Logger, options = the MODEL's `optionsOf` of the
             MODEL's reading of argv); model's `parse` verdict (ok / usage error) vs the binary's;
             the list of clap arguments in main.rs vs the list the model was written against.
-(c) DIRECT  P̂ `agrees (outcome … lib) observed` evaluated by the Lean driver on the observed
-            (exit code, stdout, stderr, output file) of every run.
+(c) DIRECT  P̂ `agreesRun (runCli argv env) observed` — the whole tool: table-driven reading of argv, then
+            `main` as an effect trace, the library's result and the text StdLogger prints for the library's
+            Logger calls (`renderLog`) — evaluated by the Lean driver on the observed (exit code, stdout,
+            stderr, output file) of every run.
+Round 3: tools/translate_cli.py regenerates lean/Grass/Generated/CliTable.lean from main.rs before the proof
+step (C20_parse_table_driven: the model's table = the regenerated one); an exhaustive grid (all 16 flag sets ×
+{file, --stdin} × {stdout, file}) on a small input set; path / argv edge cases; OUTPUT = INPUT (known finding).
 """
 import concurrent.futures
 import json
@@ -20,6 +25,7 @@ import threading
 import time
 
 import corpus
+import translate_cli
 import vlib
 from vlib import BUILD, REPO, RUNNER_BIN, Check, _Worker, driver, hexs, log, unhex
 
@@ -324,14 +330,28 @@ def run(tier, seed):
         "all 16 combinations of {--style compressed, --no-charset, --quiet, --no-unicode} (+ the -I paths the input needs) on the "
         "hand-written inputs, a random 4-8 of them per other input. A case is distinct by (input text, argv, modes) and non-trivial when at "
         "least one flag is set or the input fails/warns/imports. Plus usage-error command lines (repeated flag, bad value, unknown "
-        "flag, missing input, extra positional).")
+        "flag, missing input, extra positional). Round 3: an exhaustive grid (all 16 flag sets x {file, --stdin} x {stdout, new output file}) "
+        "on 8 hand-written inputs (quick) / every stdin-capable hand-written input (thorough), histogram keys grid:<in>:<out>:<flag bits>; "
+        "path and argv edge cases (edge:<tag>: directory / missing / non-UTF-8 input, `-`, empty and non-UTF-8 stdin, non-UTF-8 arguments, "
+        "repeated --style, -I spellings, short-flag clusters, unknown/abbreviated flags, missing values, `--`); OUTPUT = INPUT "
+        "(output-is-input:<kind>); Logger calls per run (log:warn, log:debug, log:in-imported-file, quiet:no-logger-calls).")
     ck.assumptions = [
         "the library result comes from the runner (same crate, same tree) with std Fs and std Logger in the same working directory; "
         "what StdLogger wrote is taken from the runner's captured fd 2",
-        "clap's parsing is modelled for the documented flags only (hidden flags, --, --help/--version, clustered short flags are answered `unsupported`)",
+        "clap's parsing is modelled for the documented flags (table regenerated from main.rs; clusters, attached values, `--`, non-UTF-8 arguments included); "
+        "hidden flags and --help/--version are answered `unsupported`; of a usage error only exit 2, empty stdout, no file and the `error: ` prefix are checked",
+        "the Logger calls come from the runner with a collecting Logger (same crate, same tree, same Options); the text on the binary's stderr must be their rendering by the Lean model of StdLogger",
         "process-level behaviour (signals, closed pipes, permissions — the checks run as root) is outside the model",
         "with --stdin the single positional is the OUTPUT file (main.rs since c1728ad); a second positional is a usage error",
         "as found and not contradicted by the property's text: the output file is created/truncated before compiling, so it is left EMPTY on a compile error"]
+    # (b0) translator: main.rs → lean/Grass/Generated/CliTable.lean (the proof step rebuilds when it changed)
+    try:
+        tr = translate_cli.generate()
+        ck.cov["translator"] = {"arguments": len(tr["args"]), "options_calls": len(tr["calls"]), "steps": tr["steps"], "changed": tr["changed"]}
+        translator_error = None
+    except (ValueError, OSError) as e:
+        translator_error = str(e)
+        ck.cov["translator"] = {"error": translator_error}
     ck.do_prove(cores=("cli",))
     if not ck.do_build_runner():
         ck.unproved("correspondence-broken", {"why": "runner does not build against /repo", "error": getattr(ck, "build_error", "")})
@@ -345,9 +365,18 @@ def run(tier, seed):
     args, mapping = read_clap_args(REPO)
     diffs = {k: (MODEL_ARGS.get(k), args.get(k)) for k in set(MODEL_ARGS) | set(args) if MODEL_ARGS.get(k) != args.get(k)}
     ck.cov["clap_arguments"] = {k: {"long": v[0], "short": v[1], "hidden": v[2], "takes_value": v[3]} for k, v in sorted(args.items())}
-    ck.cov["translator_ok"] = not diffs and mapping == MODEL_MAPPING
+    try:
+        table_same = driver(["cli table"])[0].startswith("ok same=1 ")
+    except Exception:                                    # noqa: BLE001  (driver not built: the proof step reports it)
+        table_same = False
+    ck.cov["translator_ok"] = not diffs and mapping == MODEL_MAPPING and translator_error is None and table_same
     static_broken = None
-    if diffs or mapping != MODEL_MAPPING:
+    if translator_error or not table_same:
+        static_broken = {"translator": translator_error or "the table regenerated from main.rs differs from the table the model runs on "
+                                                            "(C20_parse_table_driven no longer holds)",
+                         "argument_table_differences(model, main.rs)": {k: [list(x) if x else None for x in v] for k, v in diffs.items()}}
+        ck.notes.append("main.rs's command line no longer equals the table the model runs on")
+    elif diffs or mapping != MODEL_MAPPING:
         static_broken = {"argument_table_differences(model, main.rs)": {k: [list(x) if x else None for x in v] for k, v in diffs.items()},
                          "options_expression_in_main.rs": mapping, "options_expression_modelled": MODEL_MAPPING}
         ck.notes.append("main.rs no longer matches the argument table / Options expression the model was written against")
@@ -432,12 +461,83 @@ def _run(ck, tier, root, static_broken):
                   "out_path": "c0/stdin-out2.css", "argv": ["c0/stdin-out2.css", "--stdin", "-s", "compressed"], "stdin": b"a{b:$nope}", "canonical": False})
     extra.append({"idx": 0, "inp": fixed[0], "flags": {k: False for k in FLAG_KEYS}, "lps": [], "in_mode": "stdin", "out_mode": "stdout",
                   "out_path": None, "argv": ["--stdin"], "stdin": b"a{b:c}", "canonical": False})
+    # ---- exhaustive grid: every flag set x {file, --stdin} x {stdout, output file} on a small input set --------
+    grid_names = ["plain", "warn", "debug", "warn-then-error", "undefined-var", "non-ascii", "import-lp-order", "import-warn-inside"]
+    if tier != "quick":
+        grid_names = [i["name"] for i in fixed if i["stdin_ok"] and "non-utf8" not in i["tags"] and "big" not in i["tags"]]
+    n_grid = 0
+    for idx, inp in enumerate(fixed):
+        if inp["name"] not in grid_names:
+            continue
+        data = inp["text"].encode("utf-8")
+        lps = [f"c{idx}/{ld}" for ld in inp["lib"]]
+        for fi, fl in enumerate(flagsets):
+            for in_mode in ("file", "stdin"):
+                for out_mode in ("stdout", "file-new"):
+                    canonical = (fi + (in_mode == "stdin") + (out_mode == "stdout")) % 2 == 0
+                    groups = spell_flags(rng, fl, lps, canonical)
+                    if in_mode == "stdin":
+                        groups = [["--stdin"]] + groups
+                        if not canonical:
+                            rng.shuffle(groups)
+                    out_path = f"c{idx}/grid{n_grid}.css" if out_mode == "file-new" else None
+                    argv = [a for g in groups for a in g] + ([f"c{idx}/in.{inp['ext']}"] if in_mode == "file" else []) + ([out_path] if out_path else [])
+                    cases.append({"idx": idx, "inp": inp, "flags": fl, "lps": lps, "in_mode": in_mode, "out_mode": out_mode, "out_path": out_path,
+                                  "argv": argv, "stdin": data if in_mode == "stdin" else None, "canonical": False, "grid": True})
+                    n_grid += 1
+    ck.cov["grid_cases"] = n_grid
+    # ---- paths and argv shapes main.rs / clap treat specially -----------------------------------------------------
+    os.makedirs(os.path.join(root, "c0", "adir"), exist_ok=True)
+    with open(os.path.join(root, "c0", "latin1.scss"), "wb") as f:
+        f.write(b"a { b: \"\xe9\" }")
+    none_fl = {k: False for k in FLAG_KEYS}
+
+    def edge(tag, argv, stdin=None, out_mode="stdout", out_path=None, flags=none_fl, lps=()):
+        extra.append({"idx": 0, "inp": I("edge:" + tag, "a { b: c; }\n", tags=["edge"]), "flags": flags, "lps": list(lps),
+                      "in_mode": "stdin" if stdin is not None else "file", "out_mode": out_mode, "out_path": out_path,
+                      "argv": argv, "stdin": stdin, "canonical": False, "edge": tag})
+    edge("input-is-directory", ["c0/adir"])
+    edge("input-is-directory-to-file", ["c0/adir", "c0/e-dir.css"], out_mode="file-new", out_path="c0/e-dir.css")
+    edge("input-missing", ["c0/no-such-file.scss"])
+    edge("input-missing-to-existing-file", ["c0/no-such-file.scss", "c0/e-missing.css"], out_mode="file-existing", out_path="c0/e-missing.css")
+    edge("input-not-utf8", ["c0/latin1.scss"])
+    edge("input-dash-is-a-file-name", ["-"])
+    edge("output-dash-is-a-file-name", [base, "-"], out_mode="file-new", out_path="-")
+    edge("stdin-empty", ["--stdin"], stdin=b"")
+    edge("stdin-empty-to-file", ["--stdin", "c0/e-empty.css"], stdin=b"", out_mode="file-new", out_path="c0/e-empty.css")
+    edge("stdin-not-utf8", ["--stdin"], stdin=b"a{b:\xff}")
+    edge("stdin-not-utf8-to-existing-file", ["--stdin", "c0/e-nu.css"], stdin=b"\xff", out_mode="file-existing", out_path="c0/e-nu.css")
+    edge("argv-not-utf8-input", [b"c0/in\xff.scss"])
+    edge("argv-not-utf8-output", [base, b"c0/o\xff.css"])
+    edge("argv-not-utf8-load-path", ["-I", b"l\xff", base])
+    edge("style-repeated-same", ["--style", "compressed", "--style", "compressed", base])
+    edge("style-repeated-eq", ["--style=compressed", "-s", "expanded", base])
+    edge("load-path-both-spellings", ["-I", "c0/x", "--load-path=c0/x", base], lps=["c0/x", "c0/x"])
+    edge("load-path-four-spellings", ["-Ic0/a", "-I=c0/b", "--load-path", "c0/c", "--load-path=c0/d", base], lps=["c0/a", "c0/b", "c0/c", "c0/d"])
+    edge("load-path-dash", ["-I", "-", base], lps=["-"])
+    edge("cluster-q-s", ["-qscompressed", base], flags=dict(none_fl, quiet=True, compressed=True))
+    edge("cluster-q-t-eq", ["-qt=compressed", base], flags=dict(none_fl, quiet=True, compressed=True))
+    edge("cluster-repeated", ["-qq", base])
+    edge("cluster-style-swallows", ["-sq", base])
+    edge("unknown-short", ["-x", base])
+    edge("unknown-long", ["--frobnicate"])
+    edge("unknown-long-prefix", ["--styl", "compressed", base])
+    edge("long-wrong-case", ["--STYLE", "compressed", base])
+    edge("flag-with-value", ["--quiet=1", base])
+    edge("value-missing-before-flag", ["--style", "--quiet", base])
+    edge("value-missing-before-dashdash", ["-I", "--", base])
+    edge("value-looks-negative", ["-I", "-1", base])
+    edge("style-empty-value", ["--style=", base])
+    edge("dashdash-input", ["--", base])
+    edge("dashdash-flag-as-input", ["--", "--stdin"])
+    edge("dashdash-stdin-output", ["--stdin", "--", "c0/e-dd.css"], stdin=b"a{b:c}", out_mode="file-new", out_path="c0/e-dd.css")
+    edge("dashdash-quiet-after", ["-q", "--", base, "c0/e-dd2.css"], out_mode="file-new", out_path="c0/e-dd2.css", flags=dict(none_fl, quiet=True))
     cases += extra
     log(f"[C20] {len(inputs)} inputs, {len(cases)} cases prepared in {time.time() - t0:.1f}s")
 
     # ---- model: read the command lines ------------------------------------------------------
     enc = lambda l: ",".join(hexs(x) for x in l) if l else "-"
-    parsed = driver(["cli parse " + enc(c["argv"]) for c in cases])
+    parsed = driver(["cli parse " + enc_raw(c["argv"]) for c in cases])
     # round trip through the model's canonical rendering for the canonical cases
     rt_lines, rt_idx = [], []
     for ci, (c, pa) in enumerate(zip(cases, parsed)):
@@ -470,7 +570,7 @@ def _run(ck, tier, root, static_broken):
         options["load_paths_api"] = "singular"
         inp_path = opt_dec(m["input"])
         if m["kind"] == "file":
-            job = {"mode": "compile", "entry": inp_path, "fs": "std", "logger": "std", "options": options}
+            job = {"mode": "compile", "entry": inp_path, "fs": "std", "logger": "collect", "options": options}
             key = json.dumps(["file", inp_path, options], sort_keys=True)
         else:
             try:
@@ -478,8 +578,8 @@ def _run(ck, tier, root, static_broken):
             except UnicodeDecodeError:
                 c["lib_key"] = "stdin-not-utf8"
                 continue
-            job = {"mode": "compile", "input": text, "fs": "std", "logger": "std", "options": options}
-            key = json.dumps(["stdin", c["idx"], options], sort_keys=True)
+            job = {"mode": "compile", "input": text, "fs": "std", "logger": "collect", "options": options}
+            key = json.dumps(["stdin", text, options], sort_keys=True)
         c["lib_key"] = key
         if key not in lib_key_idx:
             lib_key_idx[key] = len(lib_jobs)
@@ -508,34 +608,44 @@ def _run(ck, tier, root, static_broken):
     lib_res = lib_box["res"]
     log(f"[C20] {len(lib_jobs)} library runs done in {time.time() - t0:.1f}s")
 
-    # ---- P̂ on every observed run --------------------------------------------------------------
+    # ---- P̂ on every observed run: the whole tool (`runCli`: clap by the table, then `main`) ---------------------------
     lines, line_case = [], []
     for ci, (c, o) in enumerate(zip(cases, obs)):
         pa = parsed[ci]
+        argv_txt = _argv_txt(c["argv"])
         usage_seen = (o["code"] == 2 and o["stderr"].startswith(b"error:") and o["stdout"] == b"")
+        code = o["code"] if o["code"] is not None and o["code"] >= 0 else 255
+        if c.get("edge"):
+            ck.hist("edge:" + c["edge"])
         if pa == "unsupported":
             ck.cov["unsupported_dropped"] += 1
             ck.hist("model:unsupported")
             continue
+        ok_kind = {"stdout": "stdout", "file-new": "file", "file-existing": "file", "unopenable": "unopenable"}[c["out_mode"]]
+        file_tok = "none" if o["file"] is None else "some:" + hexs(o["file"])
         if pa.startswith("usage"):
-            ck.count(("usage", c["argv"]), True)
+            ck.count(("usage", argv_txt), True)
             ck.hist("model:usage-error")
-            if not usage_seen:
-                ck.cov["model_disagreements"] += 1
-                ck.disagreements.append({"argv": c["argv"], "model": "usage error (" + unhex(pa.split(" ")[1]) + ")",
-                                         "binary": {"exit": o["code"], "stderr": o["stderr"][:300].decode("utf-8", "replace")}})
+            ck.hist("usage:" + unhex(pa.split(" ")[1]))
+            c["expect"] = (ok_kind, "ok", "", "-", True)
+            c["usage"] = True
+            # evaluated by the driver as well (exit code exactly 2, nothing on stdout, no file, `error: …` on stderr)
+            lines.append(f"cli agreescli {enc_raw(c['argv'])} 1 {ok_kind} 0 1 0 ok - - {code} {hexs(o['stdout'])} {hexs(o['stderr'])} {file_tok}")
+            line_case.append(ci)
             continue
         if not pa.startswith("ok "):
             ck.cov["model_disagreements"] += 1
-            ck.disagreements.append({"argv": c["argv"], "model": pa})
+            ck.disagreements.append({"argv": argv_txt, "model": pa})
             continue
-        if usage_seen:
+        if usage_seen and c["flags"] is None:
+            # a command-line shape outside the documented flag spellings: the model's reading of clap is what is wrong
             ck.cov["model_disagreements"] += 1
-            ck.disagreements.append({"argv": c["argv"], "model": pa, "binary": "usage error: " + o["stderr"][:200].decode("utf-8", "replace")})
+            ck.disagreements.append({"argv": argv_txt, "model": pa, "binary": "usage error: " + o["stderr"][:200].decode("utf-8", "replace")})
             continue
-        ok_kind = {"stdout": "stdout", "file-new": "file", "file-existing": "file", "unopenable": "unopenable"}[c["out_mode"]]
+        stdin_utf8 = 1
         if c["lib_key"] == "stdin-not-utf8":
-            lkind, body, warn = "ioerr", "", ""       # read_to_string fails before the library is called (the output file is already open)
+            lkind, body, evs, events = "ok", "", "-", []       # read_to_string fails before the library is called (the output file is already open)
+            stdin_utf8 = 0
             ck.hist("lib:stdin-not-utf8")
         else:
             r = lib_res[lib_key_idx[c["lib_key"]]]
@@ -548,36 +658,54 @@ def _run(ck, tier, root, static_broken):
                 ck.hist("excluded:library-" + str(st))
                 # still part of the property: nothing on stdout and a non-zero exit when the library does not return
                 if o["code"] == 0 or o["stdout"]:
-                    ck.impl_violation(json.dumps({"argv": c["argv"], "input": c["inp"]["name"]}),
-                                      {"argv": c["argv"], "input": _txt(c["inp"]["text"]), "library_status": st,
+                    ck.impl_violation(json.dumps({"argv": argv_txt, "input": c["inp"]["name"]}),
+                                      {"argv": argv_txt, "input": _txt(c["inp"]["text"]), "library_status": st,
                                        "observed": _obs_json(o), "expected_by_property": "non-zero exit and empty stdout"}, tags=[])
                 continue
-            warn = r.get("captured", "")
+            events = r.get("logs", [])
+            evs = ",".join(f"{'w' if e['kind'] == 'warn' else 'd'}:{hexs(e['file'])}:{e['line'] - 1}:{e['col'] - 1}:{hexs(e['msg'])}" for e in events) or "-"
             ck.hist("lib:" + lkind)
-        c["expect"] = (ok_kind, lkind, body, warn)
-        file_tok = "none" if o["file"] is None else "some:" + hexs(o["file"])
-        lines.append(f"cli agrees {ok_kind} {lkind} {hexs(body)} {hexs(warn)} {o['code'] if o['code'] is not None and o['code'] >= 0 else 255} "
+            if lkind == "err":
+                ck.hist("lib-error:" + ("io" if "os error" in body or "stream did not contain" in body else "compile"))
+        c["events"] = events
+        c["expect"] = (ok_kind, lkind, body, evs, stdin_utf8)
+        lines.append(f"cli agreescli {enc_raw(c['argv'])} 1 {ok_kind} 0 {stdin_utf8} 0 {lkind} {hexs(body)} {evs} {code} "
                      f"{hexs(o['stdout'])} {hexs(o['stderr'])} {file_tok}")
         line_case.append(ci)
     verdicts = driver(lines)
     failing, failing_idx = [], []
     for ci, v in zip(line_case, verdicts):
         c, o = cases[ci], obs[ci]
+        if c.get("usage"):
+            if v != "ok 1":
+                ck.cov["model_disagreements"] += 1
+                ck.disagreements.append({"argv": _argv_txt(c["argv"]), "model": "usage error: exit 2, empty stdout, `error: …` on stderr, no file",
+                                         "binary": _obs_json(o)})
+            continue
         fl = c["flags"] or {}
         nontrivial = any(fl.values()) or bool(c["inp"]["tags"]) or c["in_mode"] == "stdin" or c["out_mode"] != "stdout"
-        ck.count((_txt(c["inp"]["text"]), c["argv"], c["in_mode"], c["out_mode"]), nontrivial)
+        ck.count((_txt(c["inp"]["text"]), _argv_txt(c["argv"]), c["in_mode"], c["out_mode"]), nontrivial)
         ck.hist("in:" + c["in_mode"])
         ck.hist("out:" + c["out_mode"])
         ck.hist("exit:" + str(o["code"]))
+        if c.get("grid"):
+            ck.hist("grid:" + c["in_mode"] + ":" + c["out_mode"] + ":" + "".join(str(int(fl[k])) for k in FLAG_KEYS))
         for k, b in fl.items():
             if b:
                 ck.hist("flag:" + k)
         for t in c["inp"]["tags"]:
             ck.hist("input:" + t)
-        if c["expect"][3]:
+        entry_name = c["parsed"] and opt_dec(c["parsed"]["input"])
+        for e in c.get("events", []):
+            ck.hist("log:" + e["kind"])
+            if entry_name is not None and e["file"] != entry_name:
+                ck.hist("log:in-imported-file")
+        if c.get("events"):
             ck.hist("warnings-on-stderr")
+        elif fl.get("quiet") and "warn" in c["inp"]["tags"]:
+            ck.hist("quiet:no-logger-calls")
         if ci % 701 == 0:
-            ck.sample({"argv": c["argv"], "input": _txt(c["inp"]["text"])[:200], "exit": o["code"],
+            ck.sample({"argv": _argv_txt(c["argv"]), "input": _txt(c["inp"]["text"])[:200], "exit": o["code"],
                        "stdout": o["stdout"][:120].decode("utf-8", "replace"), "stderr": o["stderr"][:200].decode("utf-8", "replace"),
                        "library": c["expect"][1]})
         if v == "ok 1":
@@ -590,17 +718,21 @@ def _run(ck, tier, root, static_broken):
     n_failing = len(failing_idx)
     ck.cov["impl_property_failures"] += max(0, n_failing - 40)       # beyond the 40 smallest: counted, not detailed
     failing_idx = failing_idx[:40]
-    exps = driver(["cli outcome {} {} {} {}".format(cases[ci]["expect"][0], cases[ci]["expect"][1], hexs(cases[ci]["expect"][2]),
-                                                     hexs(cases[ci]["expect"][3])) for ci in failing_idx])
+    exps = driver(["cli runcli {} 1 {} 0 {} 0 {} {} {}".format(enc_raw(cases[ci]["argv"]), cases[ci]["expect"][0], cases[ci]["expect"][4], cases[ci]["expect"][1],
+                                                              hexs(cases[ci]["expect"][2]), cases[ci]["expect"][3]) for ci in failing_idx])
     for ci, exp in zip(failing_idx, exps):
         c, o = cases[ci], obs[ci]
-        ok_kind, lkind, body, warn = c["expect"]
-        failing.append({"argv": c["argv"], "input_name": c["inp"]["name"], "input": _txt(c["inp"]["text"]),
+        ok_kind, lkind, body, evs, _su = c["expect"]
+        failing.append({"argv": _argv_txt(c["argv"]), "input_name": c["inp"]["name"], "input": _txt(c["inp"]["text"]),
                         "stdin": c["stdin"] is not None, "load_path_dirs": c["inp"]["lib"], "output_mode": c["out_mode"],
-                        "observed": _obs_json(o), "library": {"result": lkind, "css_or_display": body[:4000], "stderr_of_logger": warn[:2000]},
-                        "expected(model outcome)": _exp_json(exp),
-                        "expected_by_property": "exit 0 and exactly the library's CSS in the sink / non-zero exit, empty stdout and the rendered error on stderr"})
+                        "observed": _obs_json(o), "library": {"result": lkind, "css_or_display": body[:4000], "logger_calls": c.get("events", [])[:20]},
+                        "expected(model run)": _exp_json(exp),
+                        "expected_by_property": "exit 0 and exactly the library's CSS in the sink / non-zero exit, empty stdout and the rendered error on stderr; "
+                                                "@warn/@debug text on stderr only, in StdLogger's format"})
     log(f"[C20] verdicts done in {time.time() - t0:.1f}s; {n_failing} failing")
+
+    # ---- OUTPUT names the INPUT file (known finding C20-output-is-input) ------------------------------------------------
+    output_is_input_cases(ck, root)
 
     # ---- I/O errors while delivering the CSS -------------------------------------------------------
     io_failure_cases(ck, root)
@@ -691,6 +823,79 @@ def io_failure_cases(ck, root):
 
 
 
+def enc_raw(argv):
+    """argv for the driver: hex per argument, `!` for an argument that is not valid UTF-8"""
+    out = []
+    for a in argv:
+        if isinstance(a, bytes):
+            try:
+                a = a.decode("utf-8")
+            except UnicodeDecodeError:
+                out.append("!")
+                continue
+        out.append(hexs(a))
+    return ",".join(out) if out else "-"
+
+
+def _argv_txt(argv):
+    return [a if isinstance(a, str) else a.decode("utf-8", "backslashreplace") for a in argv]
+
+
+def output_is_input_cases(ck, root):
+    """`grass f.scss f.scss` (also spelled `./f.scss`): main.rs:247-252 opens OUTPUT with truncate(true) BEFORE the input is
+    read, so the library compiles an empty file.  Tie: the run equals the model's as-found run (`openFirst = 1`, library
+    result for the truncated input).  P̂ of the property = the specified order (`openFirst = 0`, library result for the
+    file's content): fails → reported through the known finding C20-output-is-input."""
+    d = os.path.join(root, "same")
+    os.makedirs(d, exist_ok=True)
+    texts = {"rule": "a { b: c; }\n", "warn": "@warn \"w\"; a { b: c }", "error": "a { b: $nope }"}
+    rows = []
+    for name, text in texts.items():
+        for style in ("expanded", "compressed"):
+            for spelled in (f"same/{name}-{style}.scss", f"./same/{name}-{style}.scss"):
+                path = os.path.join(root, f"same/{name}-{style}.scss")
+                with open(path, "w") as f:
+                    f.write(text)
+                with open(os.path.join(d, "ref.scss"), "w") as f:
+                    f.write(text)
+                with open(os.path.join(d, "empty.scss"), "w") as f:
+                    pass
+                opts = {"style": "compressed"} if style == "compressed" else {}
+                lib_full, lib_empty = runner_map([{"mode": "compile", "entry": "same/ref.scss", "fs": "std", "logger": "collect", "options": opts},
+                                                  {"mode": "compile", "entry": "same/empty.scss", "fs": "std", "logger": "collect", "options": opts}], root, n=2)
+                argv = (["--style", "compressed"] if style == "compressed" else []) + [f"same/{name}-{style}.scss", spelled]
+                o = run_cli(argv, root, None)
+                o["file"] = open(path, "rb").read() if os.path.isfile(path) else None
+                rows.append((name, text, argv, o, lib_full, lib_empty))
+    lines = []
+    for name, text, argv, o, lf, le in rows:
+        def lib_args(r):
+            kind = "ok" if r.get("status") == "ok" else "err"
+            body = r.get("css", "") if kind == "ok" else r.get("display", "").replace("same/ref.scss", argv[-2])
+            evs = ",".join(f"{'w' if e['kind'] == 'warn' else 'd'}:{hexs(argv[-2])}:{e['line'] - 1}:{e['col'] - 1}:{hexs(e['msg'])}" for e in r.get("logs", [])) or "-"
+            return f"{kind} {hexs(body)} {evs}"
+        tail = f"{o['code'] if o['code'] is not None and o['code'] >= 0 else 255} {hexs(o['stdout'])} {hexs(o['stderr'])} " + \
+               ("none" if o["file"] is None else "some:" + hexs(o["file"]))
+        lines.append(f"cli agreescli {enc_raw(argv)} 1 file 1 1 0 {lib_args(le)} {tail}")     # as found
+        lines.append(f"cli agreescli {enc_raw(argv)} 0 file 1 1 0 {lib_args(lf)} {tail}")     # as specified
+    outs = driver(lines)
+    for k, (name, text, argv, o, lf, le) in enumerate(rows):
+        found, specd = outs[2 * k], outs[2 * k + 1]
+        ck.count(("output-is-input", argv), True)
+        ck.hist("output-is-input:" + name)
+        if found != "ok 1":
+            ck.cov["model_disagreements"] += 1
+            ck.disagreements.append({"argv": argv, "what": "OUTPUT = INPUT: the run differs from the model's as-found run (open, truncate, then compile)",
+                                     "observed": _obs_json(o)})
+        if specd != "ok 1":
+            ck.impl_violation(json.dumps({"argv": argv, "input": text}, sort_keys=True),
+                              {"argv": argv, "input": text, "observed": _obs_json(o), "input_file_after_the_run": _obs_json(o)["output_file"],
+                               "library_on_the_input": {"status": lf.get("status"), "css": lf.get("css"), "display": lf.get("display")},
+                               "expected_by_property": "the CSS the library returns for the file's content (or its error and a non-zero exit); "
+                                                       "the tool truncated the file before reading it"},
+                              tags=["output-is-input"])
+
+
 def _txt(t):
     return t.decode("utf-8", "replace") if isinstance(t, bytes) else t
 
@@ -706,7 +911,10 @@ def _exp_json(exp):
     m = kv(exp)
     segs = []
     for s in m["stderr"].split(","):
-        segs.append("<operating-system error text>" if s == "os" else unhex(s[2:]))
+        segs.append("<operating-system error text>" if s == "os" else "<clap usage error>" if s == "clap" else unhex(s[2:]))
+    if "exit" in m:
+        return {"exit": int(m["exit"]), "stdout": unhex(m["stdout"])[:4000], "stderr": "".join(segs)[:4000],
+                "output_file": opt_dec(m["file"]), "steps": m.get("steps", "").split(",")}
     return {"exit_zero": m["exit0"] == "1", "stdout": unhex(m["stdout"])[:4000], "stderr": "".join(segs)[:4000],
             "output_file": opt_dec(m["file"])}
 
